@@ -13,6 +13,7 @@ package main
 import (
 	"fmt"
 	"go/ast"
+	"go/token"
 	"go/types"
 	"os"
 	"path/filepath"
@@ -24,10 +25,33 @@ import (
 
 type vocabEntry struct {
 	Pkg, Kind, Parent, Name, Sig string
+	// Flat: for functions and methods, the types of receiver (methods) and
+	// parameters, then the results, without names: a function and the method
+	// it was turned into (or the reverse) have the same Flat.
+	Flat string
 }
 
 func (v vocabEntry) group() string { return v.Pkg + "\t" + v.Kind + "\t" + v.Parent + "\t" + v.Sig }
 func (v vocabEntry) line() string  { return v.group() + "\t" + v.Name }
+
+func flatSig(recv types.Type, sig *types.Signature, qual types.Qualifier) string {
+	var ps []string
+	if recv != nil {
+		ps = append(ps, types.TypeString(recv, qual))
+	}
+	for i := 0; i < sig.Params().Len(); i++ {
+		t := types.TypeString(sig.Params().At(i).Type(), qual)
+		if sig.Variadic() && i == sig.Params().Len()-1 {
+			t = "..." + t
+		}
+		ps = append(ps, t)
+	}
+	var rs []string
+	for i := 0; i < sig.Results().Len(); i++ {
+		rs = append(rs, types.TypeString(sig.Results().At(i).Type(), qual))
+	}
+	return "(" + strings.Join(ps, ",") + ")->(" + strings.Join(rs, ",") + ")"
+}
 
 var scopePkgs = []string{"", "/stack", "/stack/webstack", "/internal"}
 
@@ -49,6 +73,14 @@ func vocabOf(pkgs map[string]*packages.Package) ([]vocabEntry, map[string]types.
 		}
 		add := func(kind, parent, name, sig string, o types.Object) {
 			e := vocabEntry{Pkg: p.PkgPath, Kind: kind, Parent: parent, Name: name, Sig: sig}
+			if f, ok := o.(*types.Func); ok {
+				fs := f.Type().(*types.Signature)
+				var rt types.Type
+				if fs.Recv() != nil {
+					rt = fs.Recv().Type()
+				}
+				e.Flat = flatSig(rt, fs, qual)
+			}
 			out = append(out, e)
 			objs[e.line()] = o
 		}
@@ -215,4 +247,229 @@ func overlayFor(pkgs map[string]*packages.Package, rs []rename, prev map[string]
 		out[file] = src
 	}
 	return out
+}
+
+// ---------------------------------------------------------------------
+// Reshaping: a function turned into a method of its first parameter's type,
+// or a method turned into a function taking its receiver first (possibly
+// renamed on the way). Detected by equal flat signatures, undone in the
+// overlay by rewriting the declaration and every call.
+
+func readVocabFlat(verif string) map[string]string {
+	b, err := os.ReadFile(filepath.Join(verif, "refs", "vocab_flat.txt"))
+	if err != nil {
+		return nil
+	}
+	m := map[string]string{}
+	for _, l := range strings.Split(string(b), "\n") {
+		if i := strings.LastIndexByte(l, '\t'); i > 0 {
+			m[l[:i]] = l[i+1:]
+		}
+	}
+	return m
+}
+
+type reshape struct {
+	obj     *types.Func
+	toKind  string // "func" or "method": what the vocabulary has
+	toName  string
+	pkgPath string
+}
+
+func detectReshapes(ref map[string]bool, refFlat map[string]string, pkgs map[string]*packages.Package) []reshape {
+	if ref == nil || refFlat == nil {
+		return nil
+	}
+	cur, objs := vocabOf(pkgs)
+	curSet := map[string]bool{}
+	for _, e := range cur {
+		curSet[e.line()] = true
+	}
+	type miss struct{ kind, name, pkg string }
+	missing := map[string][]miss{} // pkg+flat -> entries
+	for l := range ref {
+		if curSet[l] {
+			continue
+		}
+		f := strings.Split(l, "\t")
+		if len(f) != 5 || (f[1] != "func" && f[1] != "method") {
+			continue
+		}
+		if fl := refFlat[l]; fl != "" {
+			missing[f[0]+"\t"+fl] = append(missing[f[0]+"\t"+fl], miss{f[1], f[4], f[0]})
+		}
+	}
+	added := map[string][]vocabEntry{}
+	for _, e := range cur {
+		if !ref[e.line()] && (e.Kind == "func" || e.Kind == "method") && e.Flat != "" {
+			added[e.Pkg+"\t"+e.Flat] = append(added[e.Pkg+"\t"+e.Flat], e)
+		}
+	}
+	var out []reshape
+	for k, ms := range missing {
+		as := added[k]
+		if len(ms) != 1 || len(as) != 1 || ms[0].kind == as[0].Kind {
+			continue
+		}
+		fo, ok := objs[as[0].line()].(*types.Func)
+		if !ok {
+			continue
+		}
+		out = append(out, reshape{obj: fo, toKind: ms[0].kind, toName: ms[0].name, pkgPath: as[0].Pkg})
+	}
+	sort.Slice(out, func(i, j int) bool { return out[i].toName < out[j].toName })
+	return out
+}
+
+type textEdit struct {
+	off, end int
+	text     string
+}
+
+// reshapeOverlay rewrites declarations and calls; ok=false when a use cannot
+// be rewritten (method value, function value, cross-package call).
+func reshapeOverlay(pkgs map[string]*packages.Package, rs []reshape, prev map[string][]byte) (map[string][]byte, bool) {
+	edits := map[string][]textEdit{}
+	srcOf := func(file string) []byte {
+		if b, ok := prev[file]; ok {
+			return b
+		}
+		b, _ := os.ReadFile(file)
+		return b
+	}
+	for _, r := range rs {
+		p := pkgs[r.pkgPath]
+		if p == nil {
+			return nil, false
+		}
+		off := func(pos token.Pos) int { return p.Fset.Position(pos).Offset }
+		sig := r.obj.Type().(*types.Signature)
+		uses := 0
+		handled := map[*ast.Ident]bool{}
+		for _, f := range p.Syntax {
+			file := p.Fset.Position(f.Pos()).Filename
+			src := srcOf(file)
+			text := func(n ast.Node) string { return string(src[off(n.Pos()):off(n.End())]) }
+			ok := true
+			ast.Inspect(f, func(n ast.Node) bool {
+				switch n := n.(type) {
+				case *ast.FuncDecl:
+					if p.TypesInfo.Defs[n.Name] != types.Object(r.obj) {
+						return true
+					}
+					handled[n.Name] = true
+					if r.toKind == "func" {
+						// method -> function: receiver becomes the first parameter
+						if n.Recv == nil || len(n.Recv.List) != 1 {
+							ok = false
+							return false
+						}
+						rf := n.Recv.List[0]
+						rt := text(rf)
+						if len(rf.Names) == 0 {
+							rt = "_ " + rt
+						}
+						sep := ""
+						if len(n.Type.Params.List) > 0 {
+							sep = ", "
+						}
+						edits[file] = append(edits[file],
+							textEdit{off(n.Recv.Opening), off(n.Name.End()), r.toName},
+							textEdit{off(n.Type.Params.Opening) + 1, off(n.Type.Params.Opening) + 1, rt + sep})
+					} else {
+						// function -> method of its first parameter
+						ps := n.Type.Params.List
+						if n.Recv != nil || len(ps) == 0 || len(ps[0].Names) != 1 {
+							ok = false
+							return false
+						}
+						end := off(n.Type.Params.Closing)
+						if len(ps) > 1 {
+							end = off(ps[1].Pos())
+						}
+						edits[file] = append(edits[file], textEdit{off(n.Name.Pos()), end, "(" + text(ps[0]) + ") " + r.toName + "("})
+					}
+				case *ast.CallExpr:
+					if r.toKind == "func" {
+						sel, isSel := n.Fun.(*ast.SelectorExpr)
+						if !isSel || p.TypesInfo.Uses[sel.Sel] != types.Object(r.obj) {
+							return true
+						}
+						handled[sel.Sel] = true
+						uses++
+						x := text(sel.X)
+						xt := p.TypesInfo.TypeOf(sel.X)
+						_, recvPtr := sig.Recv().Type().(*types.Pointer)
+						_, xPtr := xt.Underlying().(*types.Pointer)
+						switch {
+						case recvPtr && !xPtr:
+							x = "&" + parenIfNeeded(sel.X, x)
+						case !recvPtr && xPtr:
+							x = "*" + parenIfNeeded(sel.X, x)
+						}
+						sep := ""
+						if len(n.Args) > 0 {
+							sep = ", "
+						}
+						edits[file] = append(edits[file], textEdit{off(n.Fun.Pos()), off(n.Lparen) + 1, r.toName + "(" + x + sep})
+					} else {
+						id, isId := n.Fun.(*ast.Ident)
+						if !isId || p.TypesInfo.Uses[id] != types.Object(r.obj) {
+							return true
+						}
+						handled[id] = true
+						uses++
+						if len(n.Args) == 0 {
+							ok = false
+							return false
+						}
+						end := off(n.Rparen)
+						if len(n.Args) > 1 {
+							end = off(n.Args[1].Pos())
+						}
+						edits[file] = append(edits[file], textEdit{off(n.Pos()), end, "(" + text(n.Args[0]) + ")." + r.toName + "("})
+					}
+				}
+				return true
+			})
+			if !ok {
+				return nil, false
+			}
+		}
+		// any other use (a method or function value, another package) cannot be rewritten
+		for _, q := range pkgs {
+			if q.TypesInfo == nil || !strings.HasPrefix(q.PkgPath, modPath) {
+				continue
+			}
+			for id, o := range q.TypesInfo.Uses {
+				if o == types.Object(r.obj) && !handled[id] {
+					return nil, false
+				}
+			}
+		}
+	}
+	out := map[string][]byte{}
+	for k, v := range prev {
+		out[k] = v
+	}
+	for file, es := range edits {
+		src := srcOf(file)
+		sort.Slice(es, func(i, j int) bool { return es[i].off > es[j].off })
+		for i, e := range es {
+			if i > 0 && e.end > es[i-1].off {
+				return nil, false // overlapping edits (nested calls of the reshaped function)
+			}
+			src = append(append(append([]byte{}, src[:e.off]...), e.text...), src[e.end:]...)
+		}
+		out[file] = src
+	}
+	return out, true
+}
+
+func parenIfNeeded(n ast.Expr, s string) string {
+	switch n.(type) {
+	case *ast.Ident, *ast.SelectorExpr, *ast.IndexExpr, *ast.ParenExpr, *ast.CompositeLit:
+		return s
+	}
+	return "(" + s + ")"
 }
